@@ -319,7 +319,10 @@ class GateSim(PeerSim):
             t = r.choice(cfg["frame_types"])
             defect = r.choice(cfg["defects"])
             pd = int(r.random() < 0.15)
-            return [cls, t, defect, pd, r.randint(1, 3)]
+            w = r.randint(1, 3)
+            if t == "Abare":
+                w = r.randint(1, 7)  # 4..7: duplicated 108 / 98, HeartBtInt that is not an integer
+            return [cls, t, defect, pd, w]
         if cls == "send":
             types = SEND_TYPES
             if self.eut_role == "acceptor":
@@ -416,7 +419,10 @@ class GateSim(PeerSim):
                     "5": [("58", "bye")]}.get(t, [("11", f"P-{self.app_id}"), ("55", "ES"), ("54", "1"), ("38", "1"), ("44", "1")])
             if t == "Abare":
                 # a Logon without EncryptMethod / HeartBtInt
-                body = [("98", "0")] if w == 1 else ([("108", self.cfg["hb"])] if w == 2 else [])
+                hb = self.cfg["hb"]
+                body = {1: [("98", "0")], 2: [("108", hb)], 3: [],
+                        4: [("98", "0"), ("108", hb), ("108", hb)], 5: [("98", "0"), ("98", "0"), ("108", hb)],
+                        6: [("98", "0"), ("108", f"{hb}.0")], 7: [("98", "0"), ("108", "thirty")]}[w]
             mt = "4" if t.startswith("4") else ("A" if t == "Abare" else t)
             ent = p.send(mt, body, seq=seq, possdup=pd, count=False, spec={"stim": 1, "defect": defect}, **kw)
             if cur is not None:
